@@ -86,8 +86,56 @@ def run_mode(rep, mode, cfgs, modname):
                "pattern and the same length/padding class")
 
 
+LONG = (255, 256, 257, 1024, 4095, 4096, 4097, 8192, 12288)
+
+
+def long_case(args, n, how):
+    """update() with a LONG batch (lengths around powers of two / multiples of 4096, where a
+    chunking implementation has its edges) on a fresh sketch: nothing may be counted twice."""
+    from collections import Counter
+    from .. import sk as SK
+
+    keys = [b"a", b"b", b"a\x00"[: args[2]], b""]
+    lst = [keys[(i * i + i // 5) % len(keys)] for i in range(n)]
+    true = Counter(lst)
+    sk = SK.make("hh", *args)
+    if how == "list":
+        sk.update(lst)
+    elif how == "tuple":
+        sk.update(tuple(lst))
+    else:
+        sk.update(dict(true))
+    probs = []
+    for k in set(keys) | {b"never"}:
+        c = int(sk[k])
+        if c > true.get(k, 0):
+            probs.append(f"hh[{k!r}] = {c} exceeds the true count {true.get(k, 0)}")
+    for k, c in sk.query(10**6, 0):
+        if int(c) > true.get(k, 0):
+            probs.append(f"query reports ({k!r}, {int(c)}), true count {true.get(k, 0)}")
+    return bool(probs), {"problems": probs[:3]}
+
+
+def long_batches(rep):
+    n = 0
+    for args in ([1, 1, 2], [4, 2, 3]):
+        for ln in LONG:
+            for how in ("list", "tuple", "dict"):
+                bad, obs = long_case(args, ln, how)
+                n += 1
+                rep.evals()
+                rep.nontrivial(("long", tuple(args), ln, how))
+                if bad:
+                    rep.violation({"part": "long", "args": args, "n": ln, "how": how},
+                                  f"hh{args}.update({how} of {ln} keys): {obs['problems'][0]}")
+    rep.add("transitions", n)
+    rep.add("traces_validated_against_impl", n)
+    rep.part("long_batches", cases=n)
+
+
 def run(rep):
     run_mode(rep, MODE, configs(rep.tier, rep.seed), __name__)
+    long_batches(rep)
     rep.set(
         "rule",
         "state = full concrete state of every real HeavyHitters (tables + query cache) + true "
@@ -98,6 +146,8 @@ def run(rep):
 
 
 def replay(case):
+    if case.get("part") == "long":
+        return long_case(case["args"], case["n"], case["how"])
     scratch = tmpdir()
     try:
         return H.HHSys(scratch, MODE).replay(case["cfg"], case["events"])
